@@ -14,6 +14,8 @@ INVARIANT IgnoresNonNumeric
 INVARIANT FirstErrorLaw
 INVARIANT SubtotalLaw
 INVARIANT SumProductLaw
+INVARIANT Homogeneous
+INVARIANT TwoLevel
 INVARIANT Export
 PROPERTY FoldStep
 PROPERTY SumStep
